@@ -85,13 +85,14 @@ def gen_plan(rng, maxlen):
             archs.append((kind, nv, nh, na))
         ud = None
         if kind != "pos":
-            ud = rng.choice([None, None, "empty", ["H"], ["H", "S"], ["X"]])
+            ud = rng.choice([None, None, "empty", ["H"], ["H", "S"], ["X"], {"raw": ["Z", "H"]}, {"raw": ["X", "Z"]},
+                             {"raw": ["Z", "X", "K"]}, {"raw": ["H"]}])
             if rng.random() < 0.4:
                 # the caller keeps the dictionary object and passes the same one to every constructor that asks for it
                 if not uds or rng.random() < 0.3:
                     us = len(uds)
                     uds.append(us)
-                    plan.append({"t": "mkUD", "udslot": us, "names": rng.choice([["H"], ["H", "S"], ["X", "K"], ["S"]])})
+                    plan.append({"t": "mkUD", "udslot": us, "names": rng.choice([["H"], ["H", "S"], ["X", "K"], ["S"], {"raw": ["Z", "Y", "S"]}, {"raw": ["K"]}])})
                 ud = {"ref": rng.choice(uds)}
         states[slot] = (kind, nv, nh, na)
         return {"t": "construct", "slot": slot, "kind": kind, "nv": nv, "nh": nh, "na": na, "ud": ud}
